@@ -359,3 +359,85 @@ pub fn ulp(v: f64) -> f64 {
     let a = v.abs().max(f64::MIN_POSITIVE);
     f64::from_bits(a.to_bits() + 1) - a
 }
+
+/// The same point set with representation "noise": a consecutive repeated vertex in one line string /
+/// ring, an empty member inside a Multi* / collection. Valid for geo's own validation and for JTS.
+pub fn noisy(g: &G, sel: u64) -> G {
+    let mut s = sel;
+    let mut next = |m: usize| -> usize {
+        s = crate::engine::splitmix64(s);
+        (s % m.max(1) as u64) as usize
+    };
+    fn dup(v: &Vec<C>, i: usize) -> Vec<C> {
+        let mut r = v.clone();
+        if !r.is_empty() {
+            let k = i % r.len();
+            let c = r[k];
+            r.insert(k, c);
+        }
+        r
+    }
+    match g {
+        G::LineString(v) => G::LineString(dup(v, next(64))),
+        G::Polygon(p) => {
+            let nr = 1 + p.holes.len();
+            let ri = next(nr);
+            let mut q = p.clone();
+            if ri == 0 { q.ext = dup(&q.ext, next(64)) } else { q.holes[ri - 1] = dup(&q.holes[ri - 1], next(64)) }
+            G::Polygon(q)
+        }
+        G::MultiLineString(v) => {
+            let mut r = v.clone();
+            match next(3) {
+                0 => { let k = next(r.len() + 1); r.insert(k.min(r.len()), vec![]); }
+                1 if !r.is_empty() => { let k = next(r.len()); r[k] = dup(&r[k], next(64)); }
+                _ => { r.push(vec![]); }
+            }
+            G::MultiLineString(r)
+        }
+        G::MultiPolygon(v) => {
+            let mut r = v.clone();
+            match next(3) {
+                0 => { let k = next(r.len() + 1); r.insert(k.min(r.len()), Poly::new(vec![], vec![])); }
+                1 if !r.is_empty() => { let k = next(r.len()); r[k].ext = dup(&r[k].ext, next(64)); }
+                _ => { r.push(Poly::new(vec![], vec![])); }
+            }
+            G::MultiPolygon(r)
+        }
+        G::MultiPoint(v) => {
+            let mut r = v.clone();
+            if !r.is_empty() { let k = next(r.len()); let c = r[k]; r.push(c); }
+            G::MultiPoint(r)
+        }
+        G::Coll(v) => {
+            let mut r = v.clone();
+            let k = next(r.len() + 1);
+            let empty = match next(3) { 0 => G::LineString(vec![]), 1 => G::MultiPoint(vec![]), _ => G::Polygon(Poly::new(vec![], vec![])) };
+            r.insert(k.min(r.len()), empty);
+            G::Coll(r)
+        }
+        _ => g.clone(),
+    }
+}
+
+/// remove the representation noise again (consecutive repeated vertices, empty members)
+pub fn denoise(g: &G) -> G {
+    fn dd(v: &Vec<C>) -> Vec<C> {
+        let mut out: Vec<C> = vec![];
+        for c in v {
+            if out.last() != Some(c) {
+                out.push(*c);
+            }
+        }
+        out
+    }
+    let dp = |p: &Poly| Poly { ext: dd(&p.ext), holes: p.holes.iter().map(dd).filter(|h| !h.is_empty()).collect() };
+    match g {
+        G::LineString(v) => G::LineString(dd(v)),
+        G::Polygon(p) => G::Polygon(dp(p)),
+        G::MultiLineString(v) => G::MultiLineString(v.iter().map(dd).filter(|l| !l.is_empty()).collect()),
+        G::MultiPolygon(v) => G::MultiPolygon(v.iter().map(dp).filter(|p| !p.ext.is_empty()).collect()),
+        G::Coll(v) => G::Coll(v.iter().map(denoise).filter(|m| !m.is_empty()).collect()),
+        _ => g.clone(),
+    }
+}
